@@ -51,17 +51,14 @@ class Kind:
 
 
 def join(kinds: List[Kind]) -> Kind:
-    """tainted > unknown > param > (set/ord disagreement = unknown) > set / ord."""
+    """Worst case over alternatives: tainted > set > unknown > param > ord."""
     if not kinds:
         return Kind(UNKNOWN, "no binding")
-    for want in (TAINTED, UNKNOWN, PARAM):
+    for want in (TAINTED, SET, UNKNOWN, PARAM):
         for k in kinds:
             if k.k == want:
                 return k
-    ks = {k.k for k in kinds}
-    if len(ks) == 1:
-        return kinds[0]
-    return Kind(UNKNOWN, "bound both to a set and to a sequence: " + ", ".join(k.why for k in kinds))
+    return kinds[0]
 
 
 def as_sequence(k: Kind, how: str) -> Kind:
@@ -72,7 +69,7 @@ def as_sequence(k: Kind, how: str) -> Kind:
 
 
 class OrderFlow:
-    def __init__(self, ctx, max_depth: int = 10, param_kinds: Optional[Dict[Tuple[str, str], Kind]] = None):
+    def __init__(self, ctx, max_depth: int = 30, param_kinds: Optional[Dict[Tuple[str, str], Kind]] = None):
         self.ctx = ctx
         self.ix = ctx.index
         self.max_depth = max_depth
@@ -140,9 +137,8 @@ class OrderFlow:
 
     # ------------------------------------------------------------------ pieces
     def _call(self, c: ast.Call, fn: FuncInfo, d: int, at) -> Kind:
-        nm = call_name(c) or ""
-        short = nm.rsplit(".", 1)[-1]
         recv = c.func.value if isinstance(c.func, ast.Attribute) else None
+        short = c.func.attr if isinstance(c.func, ast.Attribute) else (c.func.id if isinstance(c.func, ast.Name) else "")
         plain = recv is None or dotted(recv) in NS_OK
         if short == "sorted" and recv is None:
             return Kind(ORD, "sorted()")
@@ -426,3 +422,22 @@ def ordinal_keys(items, base):
         counts[b] = counts.get(b, 0) + 1
         out.append((b if tot[b] == 1 else f"{b}#{counts[b]}", it))
     return out
+
+
+TOPO = "util/topological.py"
+
+
+def topo_flow(ctx) -> OrderFlow:
+    """OrderFlow with the contract of util/topological.py: the 1st parameter (edge pairs) of
+    sort / sort_as_subsets is an unordered collection (callers pass sets), the 2nd (items) carries the
+    caller's order; find_cycles is order-free."""
+    pk = {}
+    for name in ("sort_as_subsets", "sort"):
+        f = ctx.func(f"{TOPO}::{name}")
+        ctx.require(len(f.params) >= 2, f"{name} no longer takes (edge pairs, items)")
+        pk[(f.key, f.params[0])] = Kind(SET, f"edge-pair parameter `{f.params[0]}` (callers pass sets)")
+        pk[(f.key, f.params[1])] = Kind(ORD, f"items parameter `{f.params[1]}` (the caller's order)")
+    f = ctx.func(f"{TOPO}::find_cycles")
+    for p in f.params[:2]:
+        pk[(f.key, p)] = Kind(SET, f"parameter `{p}` of find_cycles (order-free by contract)")
+    return OrderFlow(ctx, param_kinds=pk)
